@@ -380,6 +380,12 @@ def r19_5(ctx, rr):
         st = lp["body"].get("expr") or (lp["body"]["stmts"][-1] if lp["body"]["stmts"] else None)
         if st is not None and st.get("k") == "If" and st["c"].get("k") == "Binary" and tab_id(st["c"]["l"]) == W_:
             skip.append(st["c"])
+    # the same search as `loop { let v = pop(); if weight[v] != 0 { break v } }`: what does not break is skipped
+    if not skip:
+        for lp in [n for n in walk(b.body) if n.get("k") == "Loop" and n.get("src") != "While"]:
+            for st in walk(lp["body"]):
+                if st.get("k") == "If" and st["c"].get("k") == "Binary" and tab_id(st["c"]["l"]) == W_ and st["c"]["op"] in ("!=", ">") and any(x.get("k") == "Break" for x in walk(st["th"])) and "el" not in st:
+                    skip.append({"op": "==", "l": st["c"]["l"], "r": st["c"]["r"], "k": "Binary", "s": st["c"].get("s", "")})
     rr.instances += 1
     ok = len(skip) == 1 and skip[0]["op"] == "==" and skip[0]["r"].get("k") == "Lit" and skip[0]["r"].get("v") == "0"
     rr.check(ok, "lazy:skip-only-weight-0", "lazy_gaussian_elimination: when no equation is ready, the next variable to activate is the first whose weight is not 0 (`while weight[var] == 0 { pop }`): a variable of weight 1 still occurs in an unsolved equation and must be activated (found %s)" % [show(F, c) for c in skip], F.loc(skip[0]) if skip else b.span)
